@@ -24,8 +24,9 @@
   `index_scan_eq_filter`); a disagreement would be reported as `MODEL-DISAGREES` (it cannot happen for Defects.none).
 -/
 import AxVerif.Driver.Sql
+import AxVerif.Model.Plan
 namespace AxVerif.Plan
-open AxVerif AxVerif.Sql
+open AxVerif AxVerif.Sql AxVerif.Index
 
 inductive Op where
   | stmt (s : Stmt)
@@ -54,34 +55,122 @@ def parseOp (db : Db) (ws : List String) : Option Op :=
   | ["analyze", r, m] => if isDec r && isDec m then some .analyze else none
   | _ => (pStmt db ws).map .stmt
 
+/-! ### the store (rows with row ids, maintained indexes) next to the reference database -/
+
+def numberFrom (n : Nat) : List Row → Rows
+  | [] => []
+  | r :: rs => (n, r) :: numberFrom (n + 1) rs
+
+def initStore (db : Db) (ixs : List (Nat × List Nat)) : Store :=
+  (List.range db.length).map (fun t =>
+    let td := db.getD t default
+    let rows := numberFrom 1 td.rows
+    { tys := td.tys, rows := rows,
+      indexes := (ixs.filter (fun x => x.1 == t)).map (fun x => populate x.2 rows) })
+
+def nextRid (tb : STable) : Nat := tb.rows.foldl (fun m r => max m (r.1 + 1)) 1
+
+/-- the store after a DML statement that took the reference database from `db` to `db'` -/
+def stepStore (D : Index.Defects) (st : Store) (db db' : Db) : Stmt → Store
+  | .select _ => st
+  | .insert t _ =>
+    let tb := st.getD t default
+    let old := (db.getD t default).rows.length
+    let added := (db'.getD t default).rows.drop old
+    let news := numberFrom (nextRid tb) added
+    st.set t { tb with rows := tb.rows ++ news,
+                       indexes := tb.indexes.map (fun ix => news.foldl (fun ix r => ix.insert r.1 r.2) ix) }
+  | .update t sets _ =>
+    let tb := st.getD t default
+    let assigned := sets.map (·.1)
+    let pairs := tb.rows.zip (db'.getD t default).rows
+    let changed := pairs.filter (fun p => p.1.2 != p.2)
+    st.set t { tb with rows := pairs.map (fun p => (p.1.1, p.2)),
+                       indexes := tb.indexes.map (fun ix =>
+                         changed.foldl (fun ix p => ix.update D p.1.1 p.1.2 p.2 assigned) ix) }
+  | .delete t w =>
+    let tb := st.getD t default
+    let gone := tb.rows.filter (fun r => match predOf {} tb.tys w r.2 with
+      | .ok true => true
+      | _ => false)
+    st.set t { tb with rows := tb.rows.filter (fun r => !(gone.any (fun g => g.1 == r.1))),
+                       indexes := tb.indexes.map (fun ix => gone.foldl (fun ix r => ix.delete r.2) ix) }
+
+def storeConsistentB (st : Store) : Bool :=
+  st.all (fun tb => tb.indexes.all (fun ix => consistentB ix tb.rows))
+
+/-- does the store still describe the reference database? -/
+def storeMatches (st : Store) (db : Db) : Bool :=
+  st.length == db.length && (st.zip db).all (fun p => showRows false (p.1.rows.map (·.2)) == showRows false p.2.rows)
+
+/-! ### a query through the plan algebra: every plan the rules reach must give the reference answer -/
+
+def fromSize (st : Store) : From → Nat
+  | .table t => (st.getD t default).rows.length + 1
+  | .join _ l r _ => fromSize st l * fromSize st r
+
+def planDefects (flags : List String) : Plan.Defects :=
+  { joinCommuteKeepsIndices := flags.contains "joinCommuteKeepsIndices"
+    helpersSkipForms := flags.contains "helpersSkipForms"
+    memoIgnoresPredicates := flags.contains "memoIgnoresPredicates"
+    assocDropsBOnly := flags.contains "assocDropsBOnly"
+    indexScanIgnoresNullable := flags.contains "indexScanIgnoresNullable" }
+
+/-- number of reachable plans checked, or the first plan that disagrees with the reference rows -/
+def crossCheck (D : Plan.Defects) (st : Store) (q : Select) (out : List Row) : Except String Nat :=
+  if !(q.aggs.isEmpty && q.orderBy.isEmpty && !q.distinct && q.limit.isNone && q.offset.isNone) then .ok 0
+  else if fromSize st q.from_ > 3000 then .ok 0
+  else
+    let p0 := boundPlan q
+    if !(p0.wellScoped st) then .error "ill-scoped"
+    else
+      let want := showRows true out
+      let plans := explore D st 3 [if D.memoIgnoresPredicates then memoJoinInputs D p0 else p0]
+      match plans.find? (fun p => showRows true (evalPlan st p) != want) with
+      | some p => .error (toString (repr p)).length.repr
+      | none => .ok plans.length
+
 structure St where
   db : Db
-  /-- database at `begin` of the open session -/
-  saved : Option Db := none
+  store : Store
+  /-- database and store at `begin` of the open session -/
+  saved : Option (Db × Store) := none
   failed : Bool := false
 
-def stepOp (D : Defects) (st : St) (op : Op) : St × String :=
+def stepOp (D : Sql.Defects) (PD : Plan.Defects) (ID : Index.Defects) (st : St) (op : Op) : St × String :=
   if st.failed then (st, "-") else
   match op with
-  | .begin => ({ st with saved := some (st.saved.getD st.db) }, "ok")
-  | .rollback => ({ st with db := st.saved.getD st.db, saved := none }, "ok")
+  | .begin => ({ st with saved := some (st.saved.getD (st.db, st.store)) }, "ok")
+  | .rollback =>
+    let (db, store) := st.saved.getD (st.db, st.store)
+    ({ st with db := db, store := store, saved := none }, "ok")
   | .commit => ({ st with saved := none }, "ok")
   | .vacuum | .analyze | .mkix => (st, "ok")
   | .stmt s =>
     let (db', o) := execStmt D nullsFirstOfEngine st.db s
-    match s with
-    | .select _ => (st, "same " ++ showOutcome s o)
-    | _ =>
+    match s, o with
+    | .select q, .rows out =>
+      match crossCheck PD st.store q out with
+      | .ok _ => (st, "same " ++ showOutcome s o)
+      | .error why => (st, "MODEL-DISAGREES plan=" ++ why ++ " " ++ showOutcome s o)
+    | .select _, _ => (st, "same " ++ showOutcome s o)
+    | _, _ =>
       let out := showOutcome s o
-      ({ st with db := db', failed := out.startsWith "E" }, out)
+      if out.startsWith "E" then ({ st with failed := true }, out)
+      else
+        let store' := stepStore ID st.store st.db db' s
+        if !(storeMatches store' db') then ({ st with db := db', store := store' }, "MODEL-DISAGREES store " ++ out)
+        else if !(storeConsistentB store') && !ID.indexUpdateKeepsOldKey then
+          ({ st with db := db', store := store' }, "MODEL-DISAGREES index-inconsistent " ++ out)
+        else ({ st with db := db', store := store' }, out)
 
-def runOps (D : Defects) : St → List Op → List String
+def runOps (D : Sql.Defects) (PD : Plan.Defects) (ID : Index.Defects) : St → List Op → List String
   | _, [] => []
   | st, op :: ops =>
-    let (st', o) := stepOp D st op
-    o :: runOps D st' ops
+    let (st', o) := stepOp D PD ID st op
+    o :: runOps D PD ID st' ops
 
-def step (D : Defects) (line : String) : String :=
+def step (flags : List String) (line : String) : String :=
   match words line with
   | "plan" :: dbw :: ixw :: "|" :: rest =>
     match parseDb dbw, parseIxs ixw with
@@ -89,13 +178,15 @@ def step (D : Defects) (line : String) : String :=
       if ixs.any (fun x => x.2.any (fun c => c ≥ (db.getD x.1 default).tys.length) || x.1 ≥ db.length) then "bad-op" else
       match allSome ((splitStmts rest).map (parseOp db)) with
       | none => "bad-op"
-      | some ops => joinWith " ; " (runOps D { db := db } ops)
+      | some ops =>
+        let ID : Index.Defects := { indexUpdateKeepsOldKey := flags.contains "indexUpdateKeepsOldKey" }
+        joinWith " ; " (runOps {} (planDefects flags) ID { db := db, store := initStore db ixs } ops)
     | _, _ => "bad-op"
   | _ => "bad-op"
 
 end AxVerif.Plan
 
 namespace AxVerif.Drivers
-def plan (_flags : List String) (line : String) : String :=
-  AxVerif.Plan.step {} line
+def plan (flags : List String) (line : String) : String :=
+  AxVerif.Plan.step flags line
 end AxVerif.Drivers
